@@ -700,4 +700,73 @@ theorem mayLostFrom_spec (size e : Nat) (he : e ≤ size) (fuel : Nat) :
             · simp [h2, colourAt, hxe]
             · simp [h2]
 
+/-! ### `may_lost_from` at the level of the abstraction function -/
+
+/-- `may_lost_from(j, b)` on a well-formed map, called where `may_loss` calls it: every run before index `j`
+starts at or below `a` and the last of them (if any) is `Recved`, every run from `j` on starts at or above `a`,
+no `Pending` run starts below `b`.  It does not panic, keeps the map well-formed and recolours exactly
+`[a, b)` by `lostOf`. -/
+theorem mayLostFrom_abs (m : BufMap) (hwf : WF m) (j a b : Nat) (hb : b ≤ m.size) (hj : j ≤ m.runs.length)
+    (hnp : ∀ r ∈ m.runs.drop j, r.1 < b → r.2 ≠ Colour.pending)
+    (hP1 : ∀ r ∈ m.runs.take j, r.1 ≤ a) (hP2 : lastCol (m.runs.take j) Colour.recved = Colour.recved)
+    (hR : ∀ r ∈ m.runs.drop j, a ≤ r.1) :
+    ∃ r', mayLostFrom (m.runs.length + 2) m.runs m.size j b = .ok r' ∧ WF { m with runs := r' } ∧
+      ∀ x, BufMap.abs { m with runs := r' } x = setRange m.abs a b lostOf x := by
+  have hsplit : m.runs.take j ++ m.runs.drop j = m.runs := List.take_append_drop j m.runs
+  have hlenP : (m.runs.take j).length = j := by rw [List.length_take]; omega
+  have hs := hwf.sorted
+  rw [← hsplit, sorted_append] at hs
+  obtain ⟨hsP, hsR, hPR⟩ := hs
+  obtain ⟨rest', hrun, hs', hsz', hlb', hcol'⟩ := mayLostFrom_spec m.size b hb (m.runs.length + 2)
+    (m.runs.take j) (m.runs.drop j) (by rw [List.length_drop]; omega) hsR
+    (fun r hr => hwf.lt_size r (List.mem_of_mem_drop hr)) hnp
+  rw [hsplit, hlenP] at hrun
+  have hPR' : ∀ r1 ∈ m.runs.take j, ∀ r2 ∈ rest', r1.1 < r2.1 :=
+    fun r1 h1 r2 h2 => hlb' r1.1 (fun r hr => hPR r1 h1 r hr) r2 h2
+  refine ⟨_, hrun, ⟨?_, ?_⟩, ?_⟩
+  · show Sorted (m.runs.take j ++ rest')
+    rw [sorted_append]
+    exact ⟨hsP, hs', hPR'⟩
+  · intro r hr
+    have hr' : r ∈ m.runs.take j ++ rest' := hr
+    rw [List.mem_append] at hr'
+    rcases hr' with h | h
+    · exact hwf.lt_size r (List.mem_of_mem_take h)
+    · exact hsz' r h
+  · intro x
+    by_cases hx : x < m.size
+    · have e1 : BufMap.abs { m with runs := m.runs.take j ++ rest' } x
+          = colourAt (m.runs.take j ++ rest') Colour.recved x := by
+        simp [BufMap.abs, hx]
+      have e2 : m.abs x = colourAt (m.runs.take j ++ m.runs.drop j) Colour.recved x := by
+        rw [hsplit]; exact abs_of_lt m x hx
+      rw [e1]
+      simp only [setRange, e2]
+      rw [colourAt_append _ _ _ _ (fun r1 h1 r2 h2 => Nat.le_of_lt (hPR' r1 h1 r2 h2)),
+        colourAt_append _ _ _ _ (fun r1 h1 r2 h2 => Nat.le_of_lt (hPR r1 h1 r2 h2)), hcol' _ x hx]
+      by_cases hxb : x < b
+      · by_cases hax : a ≤ x
+        · have hq : colourAt (m.runs.take j) Colour.recved x = Colour.recved := by
+            rw [colourAt_ge_all _ _ x (fun r hr => Nat.le_trans (hP1 r hr) hax)]; exact hP2
+          rw [if_pos hxb, if_pos ⟨hax, hxb⟩, hq]
+          exact colourAt_map_lostRun _ Colour.recved x
+        · have h1 : ¬ (a ≤ x ∧ x < b) := fun h => hax h.1
+          rw [if_pos hxb, if_neg h1]
+          rw [colourAt_lt_all (m.runs.drop j) _ x (fun r hr => by have := hR r hr; omega)]
+          apply colourAt_lt_all
+          intro r hr
+          rw [List.mem_map] at hr
+          obtain ⟨r0, h0, rfl⟩ := hr
+          have := hR r0 h0
+          show x < r0.1
+          omega
+      · have h1 : ¬ (a ≤ x ∧ x < b) := fun h => hxb h.2
+        rw [if_neg hxb, if_neg h1]
+    · have h1 : m.abs x = Colour.pending := abs_of_ge m x (by omega)
+      have h2 : BufMap.abs { m with runs := m.runs.take j ++ rest' } x = Colour.pending :=
+        abs_of_ge _ x (by show m.size ≤ x; omega)
+      rw [h2]
+      simp only [setRange, h1]
+      split <;> rfl
+
 end GmQuic.BufMap
